@@ -44,6 +44,10 @@ def make_case(rng, tier):
         pass                                   # default clipping, centres closer than 300
     elif far > 250.0 or meta["stream"] == "wide":
         kw["max_distance_squared"] = 1e300     # clipping disabled (property: "or clipping disabled")
+    if rng.random() < 0.15:
+        # the collider is brought to its placement by update_pose (worker: harness/impl/narrow.py build)
+        s1, s2 = dict(s1, via_update=True), dict(s2, via_update=True)
+        meta["via_update"] = True
     return dict(c1=s1, c2=s2, ops=[dict(fn="gjk_jolt", kw=kw)], meta=meta)
 
 
@@ -77,6 +81,47 @@ def screen_case(rng):
     return dict(c1=s1, c2=s2, ops=[dict(fn="gjk_jolt", kw={})], meta=meta)
 
 
+def small_overlap_case(rng):
+    """two small colliders (feature sizes 0.01 .. 0.03) whose centres are closer than their sizes: the query
+    ends on a 3- or 4-point simplex of tiny volume (absolute thresholds in the barycentric reconstruction,
+    seeded change C01-5)"""
+    kinds = ["box"] * 6 + ["sphere", "capsule", "cylinder", "ellipsoid", "hull", "mesh", "cone"]
+    sz = [0.01, 0.011, 0.012, 0.014, 0.016, 0.018, 0.02]
+    s1 = nw.gen_collider(rng, rng.choice(kinds), "random", spread=0.3, margin_prob=0.0, sizes=sz)
+    s2 = nw.gen_collider(rng, rng.choice(kinds), "random", spread=0.3, margin_prob=0.0, sizes=sz)
+    off = np.array([rng.uniform(-1, 1) for _ in range(3)]) * rng.choice([0.2, 0.5, 0.9]) * 0.012
+    s2 = nw.translate_spec(s2, nw.center_of(s1) - nw.center_of(s2) + off)
+    meta = dict(stream="screen-small-overlap", kinds=[s1["kind"], s2["kind"]])
+    meta["L"] = nw.scene_scale([s1, s2])
+    return dict(c1=s1, c2=s2, ops=[dict(fn="gjk_jolt", kw={})], meta=meta)
+
+
+def float_outside(spec, x):
+    """float estimate (a lower bound up to rounding) of the distance of x from the collider, for the kinds
+    with a closed form; None otherwise.  Selection only."""
+    k = spec["kind"]
+    m = float(spec.get("margin", 0.0))
+    x = np.array(x, float)
+    if k == "sphere":
+        return float(np.linalg.norm(x - np.array(spec["center"], float))) - spec["radius"] - m
+    if "pose" not in spec:
+        return None
+    T = np.array(spec["pose"], float)
+    l = T[:3, :3].T @ (x - T[:3, 3])
+    if k == "box":
+        return float(np.max(np.abs(l) - 0.5 * np.array(spec["size"], float))) - m
+    if k == "capsule":
+        z = min(max(l[2], -0.5 * spec["height"]), 0.5 * spec["height"])
+        return float(np.linalg.norm(l - np.array([0.0, 0.0, z]))) - spec["radius"] - m
+    if k == "cylinder":
+        return max(float(np.hypot(l[0], l[1])) - spec["radius"], abs(float(l[2])) - 0.5 * spec["length"]) - m
+    if k == "ellipsoid":
+        r = np.array(spec["radii"], float)
+        f = float(np.linalg.norm(l / r)) - 1.0
+        return 0.5 * f * float(np.min(r)) - m
+    return None
+
+
 def screen_suspicious(case, r, dirs):
     """float pre-test of an answer (selection only: the verdict is the Coq checker's)"""
     if "exc" in r or r.get("a") is None or r["d"] >= MAX_FLOAT * 0.99:
@@ -88,6 +133,9 @@ def screen_suspicious(case, r, dirs):
     if abs(float(np.linalg.norm(a - b)) - d) > tol:
         return True
     for sp, x in ((case["c1"], a), (case["c2"], b)):
+        fo = float_outside(sp, x)
+        if fo is not None and fo > 2.0 * tol:
+            return True
         for u in dirs:
             if float(x @ u) - nw.support_value(sp, u) > tol:
                 return True
@@ -220,7 +268,7 @@ def run(tier, seed, replay=None):
         # reaches rare arms of the closest-point reconstruction (sliver final simplices, ~0.2 % of
         # pairs) that a few hundred certified cases do not (seeded change C01-3).
         ns = 4000 if tier == "quick" else 30000
-        scr = [screen_case(R.rng) for _ in range(ns)]
+        scr = [screen_case(R.rng) for _ in range(ns)] + [small_overlap_case(R.rng) for _ in range(ns)]
         sres = nw.run_cases(PID, scr, tag="screen")
         dirs = [np.array(nw.rand_unit(R.rng), float) for _ in range(60)]
         picked = 0
@@ -230,7 +278,7 @@ def run(tier, seed, replay=None):
                 c["meta"]["stream"] = "screen-suspicious"
                 cases.append(c)
                 results.append(rr)
-        R.cov["screened_only_by_float_test"] = ns - picked
+        R.cov["screened_only_by_float_test"] = len(scr) - picked
         R.cov["screen_suspicious_submitted_to_checker"] = picked
     R.cov["evaluations"] = len(cases)
     exprs, idx = [], []
